@@ -55,6 +55,13 @@ claim("C06", "proof", "value-set and bit-provenance dataflow on the four data co
       "For each element width the accepted value set must be exactly the width's signed-or-unsigned range and every emitted bit the right bit of the value in little-endian order (through the resolved byteorder callee); an expression operand contributes exactly its own conversion, a string its bytes (.db) or an error (word directives); operands are visited by a plain forward iterator and appended; segment rules, the one-zero-iff-odd flash padding, no EEPROM padding and '.byte n = n zeros' are per-item path facts of pass 1/pass 2.",
       "Assumes for-loops visit each element once in order; strings are the bytes of the Rust String. Trusted: rustc MIR, E1 summaries.", engine="E0+E1")
 
+claim("C07", "other", "loop summaries of the record generator by abstract interpretation: effective record address (16 x segment base + offset) vs. absolute chunk position over all accepted chunk indices; record-order rules on each path's record list; field flow of the two writers",
+      "The repository decides which records with which offsets (record syntax and checksums are the ihex crate's). Every path of generate_hex_from_segment yields its ordered record list with symbolic chunk indices; each Data record's effective address must equal the chunk's position for every index the path accepts (enumerated: 16 blocks x 4096 chunks), no arithmetic may overflow on the way, EndOfFile is last and unique, an empty image yields only EndOfFile, and each writer writes the text generated from its own image with LF->CRLF. Level 'other': the byte-exact round trip through an independent reader is a dynamic oracle and is not claimed.",
+      "Trusted: rustc MIR, E1 summaries of chunks/enumerate, the ihex crate. Images beyond 1 MiB are an error, not mis-addressed.", engine="E0+E1+E3")
+claim("C08", "model_checking", "protocol tables (Directive::parse, skip with havocked nesting counter, parse_iter dispatch) extracted from MIR by abstract interpretation on every run, composed with the reference semantics as a product automaton and explored exhaustively by BFS to nesting depth 4",
+      "Conditional assembly is implemented as a (mode, line class, nesting counter) protocol spread over three functions; the three tables are extracted from the current MIR with conditions and counter symbolic, and the resulting machine is model-checked against 'first true arm, else when none, unselected lines inert (not even their conditions evaluated)' over all well-formed skeletons: any number of arms, every truth assignment, nesting depth <= 4 (finite product, fully explored). A disagreement is reported with the shortest skeleton. No repository code runs; the machine is the extracted table.",
+      "Relies on the extraction being exact (every path of the three functions classified, else unprovable). Malformed nesting and side effects of conditions are outside C08.", engine="E0+E1")
+
 ENGINES = [
     {"name": "E0 fact driver", "path": "driver/", "serves_properties": sorted(P), "kind_free_text": "rustc_private driver (RUSTC_WORKSPACE_WRAPPER) dumping callee-resolved MIR, ADT/static/impl tables of /repo's two crates as JSON"},
     {"name": "E1 abstract interpreter", "path": "analysis/absint.py", "serves_properties": ["C01", "C02", "C03", "C04", "C05", "C06", "C08", "C12", "C13"], "kind_free_text": "path-sensitive abstract interpretation of MIR: named unknowns, value sets, bit provenance, linear forms; no solver, no execution of /repo"},
